@@ -273,6 +273,15 @@ M('I2', 'src/xdoctest/utils/util_import.py', """        # Check for directory-ba
                     return modpath""", ['C17'], 'a module file wins over a package of the same name')
 
 
+M('DU1', 'src/xdoctest/runner.py', "                    if ' import *' in line:", "                    if ' import ' in line:", ['C19'],
+  'dump drops every import line, not only star-imports')
+M('DU2', 'src/xdoctest/runner.py', """            if part.want:
+                want_text = '# doctest want:\\n'""", """            if part.want and len(part.want_lines) < 2:
+                want_text = '# doctest want:\\n'""", ['C19'], 'dump loses multi-line wants')
+M('DU3', 'src/xdoctest/runner.py', "        if example.num:\n", "        if False:\n", ['C19'], 'F14 repair reverted: duplicate function names')
+M('DU4', 'src/xdoctest/utils/util_str.py', None, None, ['C19'], 'indent skips blank-looking lines')
+
+
 def make_copy():
     d = tempfile.mkdtemp(prefix='xv_mut_')
     shutil.copytree(os.path.join(REPO, 'src'), os.path.join(d, 'src'),
